@@ -44,22 +44,35 @@ EXTRA = {
            "segmentation 8-connected (R8), forced / estimated noise and "
            "background maps over the four combinations (R9), axis roles of "
            "widths, negated angles, sexagesimal string kinds, scalar index "
-           "axes and pending scale factors at contract sites.",
+           "axes and pending scale factors at contract sites."
+           " No write through a view of the shared image / noise arrays "
+           "in the blind fit (R10); the fitted pixels are blanked "
+           "wherever another island's label is present (R11).",
     "C02": " Also: the island loop visits all labels with the exact label "
-           "slices, blanks a copy, and passes (row, column) offsets (R8).",
+           "slices, blanks a copy, and passes (row, column) offsets (R8)."
+           " The image handed to find_islands has its background "
+           "subtracted exactly once (R9).",
     "C03": " Also: sign of every value stored into err_* (R11), the island "
-           "number stored is the island's own (R2).",
+           "number stored is the island's own (R2)."
+           " The sexagesimal formatters carry after the integer "
+           "rounding and wrap afterwards (R12, R13; shared with C17).",
     "C04": " Also: each err_* field depends on the stderr of its own "
            "parameter (R8, dependency analysis), covariance-model contract "
-           "sites (R9), no narrow dtype in fitting.py (R7).",
+           "sites (R9), no narrow dtype in fitting.py (R7)."
+           " The noise level of the error model is read from the "
+           "island's own cut-out (R10).",
     "C05": " Also: refit lower shape bound <= blind-fit lower bound (R7, "
            "symbolic with counter-example), default regrouping length in "
-           "arcmin (R8).",
+           "arcmin (R8)."
+           " Cut-outs given as slice objects (R3, R4); no write through "
+           "a view of the shared arrays in the refit (R9).",
     "C06": " Also: double precision until the final cast (R6), row / column "
            "axis discipline of the worker (R7), plane addressing of 3-d / "
            "4-d inputs (R8).",
     "C07": " Also: row / column axis discipline of the stripe halo and box "
-           "(R7).",
+           "(R7)."
+           " The pool / barrier rule is decided when only one side is "
+           "clamped (R1).",
     "C08": " Also: bypass paths of the set operations only where the "
            "operation is the identity (R3), the cache is never mutated in "
            "place (R9), no narrow integer / float dtype (R10), add_pixels "
@@ -68,27 +81,40 @@ EXTRA = {
            "non-finite mask is exact and taken from values that are still "
            "non-finite (R3), angular-length vs coordinate kinds.",
     "C10": " Also: enumeration order of the pixel list vs reshape (R7), "
-           "undefined coordinates never inside (R8), column-name kinds.",
+           "undefined coordinates never inside (R8), column-name kinds."
+           " Paths that bypass the masked write exist only behind an "
+           "emptiness test of the final mask (R3).",
     "C11": " Also: the tested pixels are exactly the own pixels (R2), the "
-           "flattening sees every stored level (R6).",
+           "flattening sees every stored level (R6)."
+           " The region is never re-bound or dropped on a partial test; "
+           "membership is decided in the island loop (R3).",
     "C12": " Also: cache aliasing (R6), vertex (lon, lat) order and RA in "
            "hours at SkyCoord (R4).",
     "C13": " Also: parity analysis under image -> -image of the detection "
            "statistic, summit key, summit acceptance (R4) and of the "
            "catalogue fields (R5).",
-    "C14": " Also: off-image skip guards evaluated over orderings (R4).",
+    "C14": " Also: off-image skip guards evaluated over orderings (R4)."
+           " The guards are also interpreted for an undefined (NaN) "
+           "centre (R4).",
     "C15": " Also: node arrays not edited after their definition, "
-           "decimation starts at pixel 0 (R3).",
+           "decimation starts at pixel 0 (R3)."
+           " Row and column extents of compress never influence each "
+           "other (R5).",
     "C16": " Also: dependency of each output of the ellipse / vector "
            "transforms on its own inputs (R5), |cos(defect)| correction in "
-           "both siblings (R7), no narrow dtype (R6).",
+           "both siblings (R7), no narrow dtype (R6)."
+           " Position angles from two-argument arctangents (R8).",
     "C17": " Also: conditioning near zero separation (R6), purity of the "
-           "vectorised primitives (R7), no narrow dtype (R8).",
+           "vectorised primitives (R7), no narrow dtype (R8)."
+           " The rounded seconds are an integer number of output "
+           "quanta, not rescaled afterwards (R4).",
     "C18": " Also: exhaustive type dispatch of the sqlite and FITS writers "
-           "(R7), value provenance in the reader (R4).",
+           "(R7), value provenance in the reader (R4)."
+           " No reordering between catalogue and table rows (R8).",
     "C19": " Also: no narrow dtype in the grouping pipeline (R8).",
     "C20": " Also: plane addressing of cubes with sibling agreement (R5), "
-           "BSCALE applied exactly once (R6).",
+           "BSCALE applied exactly once (R6)."
+           " No memoised or module-level state on the load path (R7).",
 }
 
 
